@@ -122,6 +122,45 @@ class SignalSpec(object):
         return outs
 
 
+def wide_stream(item):
+    """40 assets on one signal object (ten of them unknown when it is created), 14 rounds of one price per asset:
+    after every round every value of every asset and lookback is compared with the definition"""
+    kind, lookbacks = item
+    assets = ['W%02d' % i for i in range(40)]
+    known = assets[:30]
+    sig = make_signal(kind, known, lookbacks)
+    streams = {a: [] for a in assets}
+    fails, n = [], 0
+    for rnd in range(14):
+        for i, a in enumerate(assets):
+            if a not in known and rnd < 4:
+                continue
+            p = Fraction(1000 + 37 * i + ((rnd * (i % 5 + 1) * 13) % 41) - 3 * rnd * (i % 2), 100)
+            sig.append(a, float(p))
+            streams[a].append(p)
+        for a in assets:
+            if not streams[a]:
+                continue
+            for lb in lookbacks:
+                n += 1
+                try:
+                    got = sig(a, lb)
+                except Exception as e:  # noqa
+                    fails.append({'clause': 'C16.signal_error', 'detail': {'asset': a, 'lookback': lb, 'error': repr(e)}})
+                    continue
+                want = definition(kind, streams[a], lb)
+                if not close(got, want):
+                    fails.append({'clause': 'C16.%s_definition' % kind,
+                                  'detail': {'asset': a, 'lookback': lb, 'impl': float(got), 'ref': want, 'round': rnd,
+                                             'assets_on_the_signal': len(assets)}})
+        if fails:
+            break
+    for f in fails:
+        f['case'] = {'part': 'wide_stream', 'kind': kind, 'lookbacks': list(lookbacks)}
+    return {'viols': fails[:4], 'execs': n, 'evals': n, 'nontrivial': True, 'outcome': ('wide', kind, tuple(lookbacks)),
+            'counters': {'wide_stream_values': n}}
+
+
 # ------------------------------------------------------------------ part 2: cadence in a session
 FIRST = datetime.date(2020, 2, 24)
 MARKET_SPEC = {'AAA': ('rising', BASES['AAA']), 'BBB': ('zigzag', BASES['BBB'])}
@@ -308,11 +347,17 @@ def run(tier, res, is_known):
     res.extra['all_searches_reached_fixpoint'] = fix
     if not fix:
         res.cap('a signal search did not reach its fixpoint within the depth bound')
+    product(wide_stream, [(k, lbs) for k in ('momentum', 'sma', 'vol') for lbs in ((3, 5), (1, 12))], res, is_known,
+            label='40 assets on one signal object', chunk=1)
+    if any(not is_known(v) for v in res.violations):
+        return
     product(per_cadence, cadence_items(tier), res, is_known, label='cadence sessions', chunk=1)
     res.extra['entry_kinds'] = sorted(res.extra.get('entry_kinds', set()))
 
 
 def replay(case):
+    if case['part'] == 'wide_stream':
+        return wide_stream((case['kind'], tuple(case['lookbacks'])))['viols']
     if case['part'] == 'definitions':
         spec = SignalSpec(case['kind'], case['assets'], case['lookbacks'], [], known=case.get('known'))
         return spec.evaluate(tuple(tuple(e) for e in case['history']))[1]
